@@ -168,6 +168,9 @@ def selection(chk, dprog, cfg):
             continue
         n += cd.site_weight(dprog, b)
         ok, why = cd.is_skip_filter(dprog, consumer, body=b, site=ct)
+        if ok is None:
+            chk.abstain("R13.2", "iteration:%s:%s" % (owner, elem.split("::")[-1]), b.where(bb), why, cfg, decided_by="witnesses c13_skip_member, c13_skip_second_attr (R13.5)")
+            continue
         if not ok and (cd.is_gathering(consumer) or (consumer is None and mir.unref(b.return_term()) == ct)):
             chk.abstain("R13.2", "iteration:%s:%s" % (owner, elem.split("::")[-1]), b.where(bb), "the members are first gathered (%s); the selection happens on the gathered list" % (consumer[1]["name"].split("::")[-1] if consumer else "returned to a flat_map"), cfg,
                         decided_by="witnesses c13_skip_member, c13_skip_second_attr (R13.5)")
